@@ -29,8 +29,9 @@ tvars == <<now, rq, rel, turn, last, l, newr, want, ret>>
 Ev == TraceLog[l + 1]
 Consume(name) == l < TraceLen /\ Ev.ev = name /\ l' = l + 1
 \* every goroutine is blocked: every call has arrived (a call that was decided need not have returned: its
-\* goroutine may be held at the yield point while the hand-over waits in the channel buffer)
-Blocked == newr = {}
+\* goroutine may be held at the yield point while the hand-over waits in the channel buffer
+\* - but a call that was refused has returned: nothing holds a goroutine between the refusal and its return)
+Blocked == newr = {} /\ \A i \in DOMAIN rq : rq[i].st = "rejected" => i \in ret
 
 TInit == P!Init /\ l = 1 /\ newr = {} /\ want = <<>> /\ ret = {}
 
